@@ -22,15 +22,21 @@ NREG == 4               \* registers per task
 NSTR == 2               \* stream slots per task
 NHND == 3               \* join-handle slots per task
 
+CONSTANT Sched   \* "any": any ready task may be polled next (the property-level model)
+                 \* "fifo": the queue discipline of the code (a refinement of "any"; linear-time validation)
+
 VARIABLES
-  cmds,     \* cmd key <<inst,id>> -> [host, aborted, alive, out]
+  cmds,     \* cmd key <<inst,id>> -> [host, aborted, alive, out, exec]
   tasks,    \* task key <<inst,tid>> -> task record (see NewTask)
   ready,    \* set of task keys woken and not polled since (union of all ready queues, as a set)
   run,      \* task key being polled right now, or NONE
   reqs,     \* request key <<inst,tid,seq>> -> request record (see NewReq)
-  joinreg   \* set of [w |-> waiter, k |-> target, g |-> "latest"|"stale"]: wakers parked on join handles
+  joinreg,  \* sequence of [w |-> waiter, k |-> target, g |-> "latest"|"stale"]: wakers parked on join
+            \* handles, in registration order
+  rq, sq    \* "fifo" only: per command, the ready queue and the spawn queue (sequences of task keys);
+            \* ready is always the set of tasks in them
 
-cvars == <<cmds, tasks, ready, run, reqs, joinreg>>
+cvars == <<cmds, tasks, ready, run, reqs, joinreg, rq, sq>>
 
 ---------------------------------------------------------------------------
 (* Small helpers *)
@@ -53,11 +59,13 @@ NoStreams == [i \in 1..NSTR |-> [rid |-> NONE, tag |-> 0, val |-> 0]]
 NoHandles == [i \in 1..NHND |-> NONE]
 
 NewTask(cmd, code, regs, handles, noEvict) ==
-  [cmd |-> cmd, code |-> code, pc |-> 1, regs |-> regs, st |-> "live", seq |-> 0,
+  [cmd |-> cmd, code |-> code, pc |-> 1, regs |-> regs, st |-> "live", seq |-> 0, en |-> 0,
    streams |-> NoStreams, handles |-> handles, hosting |-> NONE, aborted |-> FALSE,
    ls |-> <<>>, yielded |-> FALSE, noEvict |-> noEvict, hostedNow |-> FALSE]
 
-NewCmd(host) == [host |-> host, aborted |-> FALSE, alive |-> TRUE, out |-> {}]
+\* exec: TRUE for the pseudo command that stands for the core's QueuingExecutor
+NewCmd(host) == [host |-> host, aborted |-> FALSE, alive |-> TRUE, out |-> {}, exec |-> FALSE]
+Fifo == Sched = "fifo"
 
 \* kind: "never" | "once" | "many" ; kind0 is the kind the request was created with
 NewReq(kind, owner, tag, val) ==
@@ -65,8 +73,10 @@ NewReq(kind, owner, tag, val) ==
    held |-> FALSE, senderAlive |-> TRUE, recvAlive |-> (kind # "never"),
    reg |-> IF kind = "never" THEN "none" ELSE "latest", chan |-> <<>>, nres |-> 0]
 
-EffItem(rid, tag, val) == [kind |-> "eff", o |-> rid, tag |-> tag, val |-> val]
-EvItem(o, tag, val)     == [kind |-> "ev",  o |-> o,   tag |-> tag, val |-> val]
+\* n: position in the owning task's emission order (not observable in itself; fixes per-task order)
+EffItem(rid, tag, val, n) == [kind |-> "eff", o |-> rid, tag |-> tag, val |-> val, n |-> n]
+EvItem(o, tag, val, n)     == [kind |-> "ev",  o |-> o,   tag |-> tag, val |-> val, n |-> n]
+Strip(i) == [kind |-> i.kind, o |-> i.o, tag |-> i.tag, val |-> i.val]
 
 ---------------------------------------------------------------------------
 (* Reference semantics of combinators and builder chains ("Desugar").      *)
@@ -103,12 +113,15 @@ HostI(c, fe, fv) == [op |-> "host", cmd |-> c, fe |-> fe, fv |-> fv]
 RECURSIVE RootId(_)
 RootId(c) == IF c.k = "and" THEN RootId(c.a) ELSE c.id
 
-\* Instantiate returns [cmds |-> function, tasks |-> function] to be merged into the state
+\* Instantiate returns [cmds |-> function, tasks |-> function, rq, sq] to be merged into the state;
+\* q: the order in which the new command's first run_until_settled finds its tasks: the root task
+\* (queued by Command::new), then the tasks added through Command::spawn by `all` / `and`
 RECURSIVE Instantiate(_, _, _)
 Instantiate(c, inst, host) ==
   LET ck == <<inst, RootId(c)>>
       one(code) == [cmds  |-> (ck :> NewCmd(host)),
-                    tasks |-> (<<inst, c.tid>> :> NewTask(ck, code, ZeroRegs, NoHandles, FALSE))]
+                    tasks |-> (<<inst, c.tid>> :> NewTask(ck, code, ZeroRegs, NoHandles, FALSE)),
+                    q |-> << <<inst, c.tid>> >>]
   IN CASE c.k = "done"   -> one(<<>>)
        [] c.k = "event"  -> one(<< [op |-> "emit", tag |-> c.tag, src |-> [c |-> c.val]] >>)
        [] c.k = "notify" -> one(<< [op |-> "notify", tag |-> c.tag, src |-> [c |-> c.val]] >>)
@@ -122,12 +135,14 @@ Instantiate(c, inst, host) ==
              tasks |-> (<<inst, c.tid>> :> NewTask(ck, <<>>, ZeroRegs, NoHandles, FALSE))
                        @@ [tk \in {<<inst, c.cs[i].tid>> : i \in DOMAIN c.cs} |->
                             LET i == CHOOSE j \in DOMAIN c.cs : c.cs[j].tid = tk[2] IN
-                            NewTask(ck, << HostI(c.cs[i].c, "id", "id") >>, ZeroRegs, NoHandles, FALSE)]]
+                            NewTask(ck, << HostI(c.cs[i].c, "id", "id") >>, ZeroRegs, NoHandles, FALSE)],
+             q |-> << <<inst, c.tid>> >> \o [i \in DOMAIN c.cs |-> <<inst, c.cs[i].tid>>]]
        [] c.k = "and"    ->
             LET a == Instantiate(c.a, inst, host) IN
             [cmds  |-> a.cmds,
              tasks |-> a.tasks @@
-                       (<<inst, c.tid>> :> NewTask(ck, << HostI(c.b, "id", "id") >>, ZeroRegs, NoHandles, FALSE))]
+                       (<<inst, c.tid>> :> NewTask(ck, << HostI(c.b, "id", "id") >>, ZeroRegs, NoHandles, FALSE)),
+             q |-> Append(a.q, <<inst, c.tid>>)]
 
 ---------------------------------------------------------------------------
 (* Structure: who hosts whom *)
@@ -156,10 +171,32 @@ Blocked(S, t) ==
 ---------------------------------------------------------------------------
 (* Waking and removing tasks *)
 
-\* CommandWaker::wake_by_ref: the task's id is queued and the chain of parent wakers is woken
-WakeSet(S, ts) ==
-  LET lv == {t \in ts : t \in DOMAIN S.tasks /\ S.tasks[t].st = "live"} IN
-  lv \cup UNION {HostChain(S, t) : t \in lv}
+\* host tasks of t as a sequence, innermost first
+RECURSIVE HostSeq(_, _)
+HostSeq(S, t) == LET h == HostOf(S, t) IN IF h = ROOT THEN <<>> ELSE <<h>> \o HostSeq(S, h)
+
+InQ(S, t) == LET c == S.tasks[t].cmd IN
+             (\E i \in DOMAIN S.rq[c] : S.rq[c][i] = t) \/ (\E i \in DOMAIN S.sq[c] : S.sq[c][i] = t)
+
+\* make one task ready (its id goes to the back of its command's ready queue unless already queued)
+Enq1(S, t) ==
+  IF ~Fifo THEN [S EXCEPT !.ready = @ \cup {t}]
+  ELSE IF InQ(S, t) THEN S
+  ELSE [S EXCEPT !.ready = @ \cup {t}, !.rq[S.tasks[t].cmd] = Append(@, t)]
+
+RECURSIVE EnqSeq(_, _)
+EnqSeq(S, ts) == IF ts = <<>> THEN S ELSE EnqSeq(Enq1(S, Head(ts)), Tail(ts))
+
+\* CommandWaker::wake_by_ref for each task of the sequence ws in turn: the task's id is queued, then
+\* the chain of parent wakers is woken (innermost host first)
+RECURSIVE Wake(_, _)
+Wake(S, ws) ==
+  IF ws = <<>> THEN S
+  ELSE LET t == Head(ws) IN
+       IF t \in DOMAIN S.tasks /\ S.tasks[t].st = "live"
+       THEN Wake(EnqSeq(S, <<t>> \o HostSeq(S, t)), Tail(ws))
+       ELSE Wake(S, Tail(ws))
+
 
 \* all tasks that disappear when the tasks in K are dropped (hosted commands go with their host)
 RECURSIVE Closure(_, _)
@@ -172,16 +209,22 @@ Closure(S, K) ==
 \* which sets `finished` and wakes the join handles; tasks dropped wholesale are not announced.
 Remove(S, K0, notify) ==
   LET K  == Closure(S, K0)
-      jw == IF notify THEN {j.w : j \in {x \in S.joinreg : x.k \in K0}} \ K ELSE {}
+      jw == IF notify
+            THEN LET js == SelectSeq(S.joinreg, LAMBDA x : x.k \in K0 /\ x.w \notin K) IN
+                 [i \in DOMAIN js |-> js[i].w]
+            ELSE <<>>
       T1 == [t \in DOMAIN S.tasks |->
                IF t \in K THEN [S.tasks[t] EXCEPT !.st = "gone", !.ls = <<>>] ELSE S.tasks[t]]
       C1 == [c \in DOMAIN S.cmds |->
                IF S.cmds[c].host \in K THEN [S.cmds[c] EXCEPT !.alive = FALSE, !.out = {}] ELSE S.cmds[c]]
       R1 == [r \in DOMAIN S.reqs |->
                IF S.reqs[r].owner \in K THEN [S.reqs[r] EXCEPT !.recvAlive = FALSE] ELSE S.reqs[r]]
-      J1 == {j \in S.joinreg : j.k \notin K /\ j.w \notin K}
-      S1 == [S EXCEPT !.tasks = T1, !.cmds = C1, !.reqs = R1, !.joinreg = J1]
-  IN [S1 EXCEPT !.ready = (S.ready \ K) \cup WakeSet(S1, jw)]
+      J1 == SelectSeq(S.joinreg, LAMBDA j : j.k \notin K /\ j.w \notin K)
+      S1 == [S EXCEPT !.tasks = T1, !.cmds = C1, !.reqs = R1, !.joinreg = J1,
+                      !.ready = @ \ K,
+                      !.rq = [c \in DOMAIN @ |-> SelectSeq(@[c], LAMBDA t : t \notin K)],
+                      !.sq = [c \in DOMAIN @ |-> SelectSeq(@[c], LAMBDA t : t \notin K)]]
+  IN Wake(S1, jw)
 
 ---------------------------------------------------------------------------
 (* Leaves: the things a task can wait on *)
@@ -231,6 +274,13 @@ MergeCmds(n, old) ==
   [c \in DOMAIN n \cup DOMAIN old |->
      IF c \in DOMAIN n THEN [n[c] EXCEPT !.aborted = (c \in DOMAIN old /\ old[c].aborted)] ELSE old[c]]
 
+\* a set of task keys as a sequence in a fixed order
+RECURSIVE SetToSortSeq(_)
+SetToSortSeq(X) ==
+  IF X = {} THEN <<>>
+  ELSE LET m == CHOOSE x \in X : \A y \in X : (x[1] < y[1]) \/ (x[1] = y[1] /\ x[2] <= y[2])
+       IN <<m>> \o SetToSortSeq(X \ {m})
+
 AddOut(S, c, items) == [S EXCEPT !.cmds[c].out = @ \cup items]
 
 ExecWait(S, t, I) ==
@@ -250,7 +300,8 @@ ExecWait(S, t, I) ==
       newReq(i) == IF L[i].k = "req"
                    THEN NewReq("once", t, L[i].tag, Src(T, L[i].src))
                    ELSE NewReq("many", t, T.streams[L[i].s].tag, T.streams[L[i].s].val)
-      newItems == {EffItem(ls0[i].rid, newReq(i).tag, newReq(i).val) : i \in newR}
+      newItems == {EffItem(ls0[i].rid, newReq(i).tag, newReq(i).val,
+                          T.en + Cardinality({j \in newR : j < i})) : i \in newR}
       ridsNew == {ls0[i].rid : i \in newR}
       idxOf(r) == CHOOSE i \in DOMAIN L : ls0[i].rid = r /\ L[i].k \in {"req", "next"}
       \* existing requests touched by this poll
@@ -265,9 +316,13 @@ ExecWait(S, t, I) ==
                         ELSE q      \* closed and empty: a one-shot stays pending without a waker
                    ELSE S.reqs[r]]
       \* wakers parked on join handles by this poll
-      J1 == S.joinreg \cup
-            {[w |-> t, k |-> T.handles[L[i].h], g |-> "latest"] :
-               i \in {j \in DOMAIN L : polled(j) /\ L[j].k = "joinh" /\ ~rdy(j)}}
+      newJ == {T.handles[L[i].h] : i \in {j \in DOMAIN L : polled(j) /\ L[j].k = "joinh" /\ ~rdy(j)}}
+      oldJ == {S.joinreg[i].k : i \in {j \in DOMAIN S.joinreg : S.joinreg[j].w = t}}
+      addJ == SetToSortSeq(newJ \ oldJ)
+      J1 == [i \in DOMAIN S.joinreg |->
+               IF S.joinreg[i].w = t /\ S.joinreg[i].k \in newJ
+               THEN [S.joinreg[i] EXCEPT !.g = "latest"] ELSE S.joinreg[i]]
+            \o [i \in DOMAIN addJ |-> [w |-> t, k |-> addJ[i], g |-> "latest"]]
       ls1 == [i \in DOMAIN L |->
                IF polled(i) /\ rdy(i) THEN [ls0[i] EXCEPT !.done = TRUE, !.val = LeafVal(S, L, ls0, i)]
                ELSE ls0[i]]
@@ -297,7 +352,7 @@ ExecWait(S, t, I) ==
       ended == I.op = "next" /\ complete /\ ls1[1].val = 0
       pc1 == IF ~complete THEN T.pc ELSE IF ended THEN I.else ELSE T.pc + 1
       T1 == [T EXCEPT !.ls = IF complete THEN <<>> ELSE ls1,
-                      !.regs = regs1, !.pc = pc1, !.seq = @ + nreq]
+                      !.regs = regs1, !.pc = pc1, !.seq = @ + nreq, !.en = @ + Cardinality(newR)]
       S1 == [S EXCEPT !.tasks[t] = T1, !.joinreg = J1]
       S2 == [S1 EXCEPT !.reqs = R2]
   IN [S |-> AddOut(S2, T.cmd, newItems), oc |-> IF complete THEN "cont" ELSE "pending"]
@@ -310,13 +365,13 @@ ExecInstr(S, t) ==
       adv(S1) == [S |-> [S1 EXCEPT !.tasks[t].pc = @ + 1], oc |-> "cont"]
   IN
   CASE I.op = "emit" ->
-         adv(AddOut([S EXCEPT !.tasks[t].seq = @ + 1], T.cmd,
-                    {EvItem(<<t[1], t[2], T.seq>>, I.tag, Src(T, I.src))}))
+         adv(AddOut([S EXCEPT !.tasks[t].seq = @ + 1, !.tasks[t].en = @ + 1], T.cmd,
+                    {EvItem(<<t[1], t[2], T.seq>>, I.tag, Src(T, I.src), T.en)}))
     [] I.op = "notify" ->
          LET rid == <<t[1], t[2], T.seq>> IN
-         adv(AddOut([S EXCEPT !.tasks[t].seq = @ + 1,
+         adv(AddOut([S EXCEPT !.tasks[t].seq = @ + 1, !.tasks[t].en = @ + 1,
                               !.reqs = @ @@ (rid :> NewReq("never", t, I.tag, Src(T, I.src)))],
-                    T.cmd, {EffItem(rid, I.tag, Src(T, I.src))}))
+                    T.cmd, {EffItem(rid, I.tag, Src(T, I.src), T.en)}))
     [] I.op = "map" -> adv([S EXCEPT !.tasks[t].regs[I.reg] = ApplyF(I.f, @)])
     [] I.op = "goto" -> [S |-> [S EXCEPT !.tasks[t].pc = I.pc], oc |-> "cont"]
     [] I.op = "open" ->
@@ -326,25 +381,29 @@ ExecInstr(S, t) ==
          LET k == <<t[1], I.script.tid>> IN
          adv([S EXCEPT !.tasks = [@ EXCEPT ![t].handles[I.h] = k]
                                    @@ (k :> NewTask(T.cmd, I.script.code, T.regs, T.handles, FALSE)),
-                       !.ready = @ \cup {k}])
+                       !.ready = @ \cup {k},
+                       !.sq[T.cmd] = IF Fifo THEN Append(@, k) ELSE @])
     [] I.op = "abort" ->
          adv([S EXCEPT !.tasks[T.handles[I.h]].aborted = TRUE])
     [] I.op = "yield" ->
          IF T.yielded THEN adv([S EXCEPT !.tasks[t].yielded = FALSE])
-         ELSE [S |-> [S EXCEPT !.tasks[t].yielded = TRUE, !.ready = @ \cup {t}], oc |-> "pending"]
+         ELSE [S |-> Enq1([S EXCEPT !.tasks[t].yielded = TRUE], t), oc |-> "pending"]
     [] I.op = "host" ->
          LET n  == Instantiate(I.cmd, t[1], t)
              ck == <<t[1], RootId(I.cmd)>> IN
+         \* the child runs inside this very poll: the host stays at the front of its queue
          [S |-> [S EXCEPT !.cmds = MergeCmds(n.cmds, @),
                           !.tasks = n.tasks @@ [@ EXCEPT ![t].hosting = ck, ![t].hostedNow = TRUE],
-                          !.ready = @ \cup DOMAIN n.tasks \cup {t}],
+                          !.ready = @ \cup DOMAIN n.tasks \cup {t},
+                          !.rq = IF Fifo THEN (ck :> n.q) @@ [@ EXCEPT ![T.cmd] = <<t>> \o @] ELSE @,
+                          !.sq = IF Fifo THEN (ck :> <<>>) @@ @ ELSE @],
           oc |-> "host"]
     [] IsWait(I) -> ExecWait(S, t, I)
 
 \* does anything hold the waker of t's latest poll?  (Arc::strong_count(&arc_waker) >= 2)
 HoldsLatest(S, t) ==
   \/ \E r \in DOMAIN S.reqs : S.reqs[r].owner = t /\ S.reqs[r].reg = "latest"
-  \/ \E j \in S.joinreg : j.w = t /\ j.g = "latest"
+  \/ \E i \in DOMAIN S.joinreg : S.joinreg[i].w = t /\ S.joinreg[i].g = "latest"
 
 \* the end of a poll that returned Pending: command/executor.rs run_task, after the poll
 EndPending(S, t) ==
@@ -355,28 +414,87 @@ EndPending(S, t) ==
 ---------------------------------------------------------------------------
 (* The state as a record, so the semantic operators above can be pure *)
 
-St == [cmds |-> cmds, tasks |-> tasks, ready |-> ready, reqs |-> reqs, joinreg |-> joinreg]
+St == [cmds |-> cmds, tasks |-> tasks, ready |-> ready, reqs |-> reqs, joinreg |-> joinreg,
+       rq |-> rq, sq |-> sq]
 
 Put(S) == /\ cmds' = S.cmds /\ tasks' = S.tasks /\ ready' = S.ready
-          /\ reqs' = S.reqs /\ joinreg' = S.joinreg
+          /\ reqs' = S.reqs /\ joinreg' = S.joinreg /\ rq' = S.rq /\ sq' = S.sq
 
 Init ==
-  /\ cmds = <<>> /\ tasks = <<>> /\ ready = {} /\ run = NONE /\ reqs = <<>> /\ joinreg = {}
+  /\ cmds = <<>> /\ tasks = <<>> /\ ready = {} /\ run = NONE /\ reqs = <<>> /\ joinreg = <<>>
+  /\ rq = <<>> /\ sq = <<>>
 
 \* The outermost command of program c is created by whoever hosts it (pseudo task ROOT)
 Start(c, inst) ==
   /\ run = NONE
-  /\ LET n == Instantiate(c, inst, ROOT) IN
+  /\ LET n == Instantiate(c, inst, ROOT)
+         ck == <<inst, RootId(c)>> IN
      /\ cmds' = MergeCmds(n.cmds, cmds)
      /\ tasks' = n.tasks @@ tasks
      /\ ready' = ready \cup DOMAIN n.tasks
+     /\ rq' = IF Fifo THEN (ck :> n.q) @@ rq ELSE rq
+     /\ sq' = IF Fifo THEN (ck :> <<>>) @@ sq ELSE sq
   /\ UNCHANGED <<run, reqs, joinreg>>
 
 \* poll generation: everything t registered in earlier polls now holds an old waker
 Stale(S, t) ==
   [S EXCEPT !.reqs = [r \in DOMAIN @ |-> IF @[r].owner = t /\ @[r].reg = "latest"
                                          THEN [@[r] EXCEPT !.reg = "stale"] ELSE @[r]],
-            !.joinreg = {IF j.w = t THEN [j EXCEPT !.g = "stale"] ELSE j : j \in @}]
+            !.joinreg = [i \in DOMAIN @ |-> IF @[i].w = t THEN [@[i] EXCEPT !.g = "stale"] ELSE @[i]]]
+
+\* command c is run by its host: the outermost one by every inspection call, a nested one when
+\* its hosting task is polled
+Scheduled(S, c) ==
+  LET h == S.cmds[c].host IN
+  IF h = ROOT THEN TRUE ELSE (h \in S.ready /\ \A u \in HostChain(S, h) : u \in S.ready)
+
+\* run_until_settled on an aborted command (self.tasks.clear()) is due
+CanReap(S, c) ==
+  /\ S.cmds[c].alive /\ S.cmds[c].aborted
+  /\ LiveIn(S, c) # {}
+  /\ \A a \in CmdAnc(S, c) \ {c} : ~S.cmds[a].aborted
+  /\ LET h == S.cmds[c].host IN IF h = ROOT THEN TRUE ELSE (~Blocked(S, h) /\ ~S.tasks[h].aborted)
+  /\ Scheduled(S, c)
+
+(* "fifo": which step the code takes next.  Descend from the outermost command: a Command drains  *)
+(* its ready queue in order and moves spawned tasks over when it is empty; the core's executor     *)
+(* runs newly spawned tasks first; a hosting task at the head of its queue runs its child first.   *)
+TopCmd(S) == CHOOSE c \in DOMAIN S.cmds : S.cmds[c].host = ROOT /\ S.cmds[c].alive
+NoSel == [k |-> "none", c |-> NONE, t |-> NONE]
+RECURSIVE Sel(_, _)
+Sel(S, c) ==
+  LET desc(t) ==
+        IF S.tasks[t].hosting # NONE /\ ~S.tasks[t].aborted
+        THEN LET r == Sel(S, S.tasks[t].hosting) IN
+             IF r.k = "none" THEN [k |-> "task", c |-> c, t |-> t] ELSE r
+        ELSE [k |-> "task", c |-> c, t |-> t]
+  IN IF S.cmds[c].exec
+     THEN IF S.sq[c] # <<>> THEN desc(Head(S.sq[c]))
+          ELSE IF S.rq[c] # <<>> THEN desc(Head(S.rq[c])) ELSE NoSel
+     ELSE IF S.rq[c] # <<>> THEN desc(Head(S.rq[c]))
+          ELSE IF S.sq[c] # <<>> THEN [k |-> "move", c |-> c, t |-> NONE] ELSE NoSel
+
+ReapPending(S) == \E c \in DOMAIN S.cmds : CanReap(S, c)
+
+Eligible(t) ==
+  IF Fifo THEN ~ReapPending(St) /\ Sel(St, TopCmd(St)) = [k |-> "task", c |-> tasks[t].cmd, t |-> t]
+  ELSE TRUE
+
+PopHead(S, c) ==
+  IF ~Fifo THEN S
+  ELSE IF S.cmds[c].exec /\ S.sq[c] # <<>> THEN [S EXCEPT !.sq[c] = Tail(@)]
+  ELSE [S EXCEPT !.rq[c] = Tail(@)]
+
+\* spawn_new_tasks: everything spawned since moves to the back of the (empty) ready queue
+MoveSpawned ==
+  /\ Fifo /\ run = NONE
+  /\ ~ReapPending(St)
+  /\ cmds # <<>>
+  /\ LET r == Sel(St, TopCmd(St)) IN
+     /\ r.k = "move"
+     /\ rq' = [rq EXCEPT ![r.c] = sq[r.c]]
+     /\ sq' = [sq EXCEPT ![r.c] = <<>>]
+  /\ UNCHANGED <<cmds, tasks, ready, run, reqs, joinreg>>
 
 \* run_task picks a ready task of a command that is being run
 PollBegin(t) ==
@@ -385,7 +503,8 @@ PollBegin(t) ==
   /\ tasks[t].hosting = NONE
   /\ ~tasks[t].aborted
   /\ ~Blocked(St, t)
-  /\ Put([Stale(St, t) EXCEPT !.ready = @ \ {t}])
+  /\ Eligible(t)
+  /\ Put(PopHead([Stale(St, t) EXCEPT !.ready = @ \ {t}], tasks[t].cmd))
   /\ run' = t
 
 \* a task aborted through its join handle completes without being polled (run_task: is_aborted)
@@ -394,6 +513,7 @@ ReapTask(t) ==
   /\ t \in ready /\ tasks[t].st = "live"
   /\ tasks[t].aborted
   /\ ~Blocked(St, t)
+  /\ Eligible(t)
   /\ Put(Remove(St, {t}, TRUE))
   /\ UNCHANGED run
 
@@ -405,20 +525,10 @@ Step ==
        [] r.oc = "pending"  -> Put(EndPending(r.S, run)) /\ run' = NONE
        [] r.oc = "finished" -> Put(Remove(r.S, {run}, TRUE)) /\ run' = NONE
 
-\* command c is run by its host: the outermost one by every inspection call, a nested one when
-\* its hosting task is polled
-Scheduled(S, c) ==
-  LET h == S.cmds[c].host IN
-  h = ROOT \/ (h \in S.ready /\ \A u \in HostChain(S, h) : u \in S.ready)
-
 \* run_until_settled on an aborted command: self.tasks.clear()
 ReapCmd(c) ==
   /\ run = NONE
-  /\ cmds[c].alive /\ cmds[c].aborted
-  /\ LiveIn(St, c) # {}
-  /\ \A a \in CmdAnc(St, c) \ {c} : ~cmds[a].aborted
-  /\ LET h == cmds[c].host IN h = ROOT \/ (~Blocked(St, h) /\ ~tasks[h].aborted)
-  /\ Scheduled(St, c)
+  /\ CanReap(St, c)
   /\ Put(Remove(St, LiveIn(St, c), FALSE))
   /\ UNCHANGED run
 
@@ -433,16 +543,17 @@ Forward(h) ==
   /\ tasks[h].hosting # NONE
   /\ ~tasks[h].aborted
   /\ ~Blocked(St, h)
+  /\ Eligible(h)
   /\ LET c == tasks[h].hosting
          I == tasks[h].code[tasks[h].pc] IN
      /\ SubtreeTasks(St, c) \cap ready = {}
      /\ ~(cmds[c].aborted /\ LiveIn(St, c) # {})
      /\ LET \* a new poll of h, unless the child was started earlier in this very poll
             S0 == IF tasks[h].hostedNow THEN St ELSE Stale(St, h)
-            S1 == [S0 EXCEPT !.cmds[tasks[h].cmd].out = @ \cup {MapItem(i, I.fe, I.fv) : i \in cmds[c].out},
-                            !.cmds[c].out = {},
-                            !.tasks[h].hostedNow = FALSE,
-                            !.ready = @ \ {h}]
+            S1 == PopHead([S0 EXCEPT !.cmds[tasks[h].cmd].out = @ \cup {MapItem(i, I.fe, I.fv) : i \in cmds[c].out},
+                                    !.cmds[c].out = {},
+                                    !.tasks[h].hostedNow = FALSE,
+                                    !.ready = @ \ {h}], tasks[h].cmd)
         IN IF LiveIn(St, c) = {}
            THEN /\ Put([S1 EXCEPT !.cmds[c].alive = FALSE,
                                   !.tasks[h].hosting = NONE, !.tasks[h].pc = @ + 1])
@@ -453,12 +564,13 @@ Forward(h) ==
 Quiescent ==
   /\ run = NONE
   /\ \A t \in ready : tasks[t].st = "live" => FALSE
-  /\ \A c \in DOMAIN cmds : ~(cmds[c].alive /\ cmds[c].aborted /\ LiveIn(St, c) # {} /\ Scheduled(St, c))
+  /\ ~ReapPending(St)
 
 Internal ==
   \/ \E t \in ready : PollBegin(t) \/ ReapTask(t) \/ Forward(t)
   \/ Step
   \/ \E c \in DOMAIN cmds : ReapCmd(c)
+  \/ MoveSpawned
 
 ---------------------------------------------------------------------------
 (* What the shell can do to a request it holds *)
@@ -471,13 +583,13 @@ ResolveResult(r) ==
 \* sending a value / dropping the last sender wakes whatever waker the channel holds
 WakeOwner(S, r) ==
   IF S.reqs[r].reg = "none" THEN S
-  ELSE [S EXCEPT !.reqs[r].reg = "none", !.ready = @ \cup WakeSet(S, {S.reqs[r].owner})]
+  ELSE Wake([S EXCEPT !.reqs[r].reg = "none"], <<S.reqs[r].owner>>)
 
 Resolve(r, v) ==
   /\ run = NONE
   /\ reqs[r].held
   /\ LET q == reqs[r] IN
-     CASE q.kind = "never" -> UNCHANGED <<cmds, tasks, ready, reqs, joinreg>>
+     CASE q.kind = "never" -> UNCHANGED <<cmds, tasks, ready, reqs, joinreg, rq, sq>>
        [] q.kind = "once" ->
             \* FnOnce consumed: value sent if the receiver is still there, then the sender is dropped
             Put(WakeOwner([St EXCEPT !.reqs[r] = [q EXCEPT !.kind = "never", !.senderAlive = FALSE,
@@ -486,7 +598,7 @@ Resolve(r, v) ==
        [] q.kind = "many" ->
             IF q.recvAlive
             THEN Put(WakeOwner([St EXCEPT !.reqs[r].chan = Append(@, v), !.reqs[r].nres = @ + 1], r))
-            ELSE UNCHANGED <<cmds, tasks, ready, reqs, joinreg>>
+            ELSE UNCHANGED <<cmds, tasks, ready, reqs, joinreg, rq, sq>>
   /\ UNCHANGED run
 
 \* the shell drops a Request it holds (typed API only)
@@ -499,11 +611,11 @@ DropReq(r) ==
 
 \* AbortHandle::abort: sets the flag, wakes nobody.  A command that a combinator holds but has not
 \* started yet (the second operand of `then`) can already be aborted: remembered in a stub.
-AbortStub == [host |-> NONE, aborted |-> TRUE, alive |-> FALSE, out |-> {}]
+AbortStub == [host |-> NONE, aborted |-> TRUE, alive |-> FALSE, out |-> {}, exec |-> FALSE]
 AbortCmd(c) ==
   /\ run = NONE
   /\ cmds' = IF c \in DOMAIN cmds THEN [cmds EXCEPT ![c].aborted = TRUE] ELSE (c :> AbortStub) @@ cmds
-  /\ UNCHANGED <<tasks, ready, run, reqs, joinreg>>
+  /\ UNCHANGED <<tasks, ready, run, reqs, joinreg, rq, sq>>
 
 \* effects()/events() on the outermost command c: everything queued is handed over
 MarkHeld(R, items) ==
@@ -513,7 +625,7 @@ Take(c) ==
   /\ Quiescent
   /\ cmds' = [cmds EXCEPT ![c].out = {}]
   /\ reqs' = MarkHeld(reqs, cmds[c].out)
-  /\ UNCHANGED <<tasks, ready, run, joinreg>>
+  /\ UNCHANGED <<tasks, ready, run, joinreg, rq, sq>>
 
 IsDone(c) == cmds[c].out = {} /\ LiveIn(St, c) = {}
 
